@@ -70,7 +70,7 @@ func (cache *httpCache) makeURL(key []byte) string {
 }
 
 // write writes a series of files into the given Writer.
-func (cache *httpCache) write(w io.WriteCloser, target *core.BuildTarget, files []string) {
+func (cache *httpCache) write(w *io.PipeWriter, target *core.BuildTarget, files []string) {
 	defer w.Close()
 	gzw := gzip.NewWriter(w)
 	defer gzw.Close()
@@ -83,7 +83,9 @@ func (cache *httpCache) write(w io.WriteCloser, target *core.BuildTarget, files 
 			return storeFile(tw, name)
 		}); err != nil {
 			log.Warning("Error uploading artifacts to HTTP cache: %s", err)
-			// TODO(peterebden): How can we cancel the request at this point?
+			// Fail the request so the server does not commit an archive that is missing files.
+			w.CloseWithError(err)
+			return
 		}
 	}
 }
